@@ -22,6 +22,7 @@ import (
 	"io"
 	"math/rand"
 	"net/http/httptest"
+	"os"
 	"sort"
 	"strconv"
 	"strings"
@@ -53,7 +54,18 @@ func c16NewSide(c *Ctx, name string, auth bool) (*c16Side, error) {
 	if err != nil {
 		return nil, err
 	}
-	return &c16Side{name: name, auth: auth, ci: ci, l: c.lean()}, nil
+	s := &c16Side{name: name, auth: auth, ci: ci, l: c.lean()}
+	// development aid: VERIF_C16_FIX=switch[,switch…] (or `all`) overrides switches of the model's `codeToday` for this run,
+	// to try a patch of /repo (e.g. through a build overlay) before flipping the definition in BHS/Model/Http.lean
+	for _, f := range strings.Split(os.Getenv("VERIF_C16_FIX"), ",") {
+		if f = strings.TrimSpace(f); f != "" {
+			if ans, err := s.l.Ask("http fix " + f + " 1"); err != nil || ans != "ok" {
+				return nil, fmt.Errorf("VERIF_C16_FIX: unknown switch %q (%s)", f, ans)
+			}
+			c.R.Notes = append(c.R.Notes, "model switch overridden for this run: "+f)
+		}
+	}
+	return s, nil
 }
 
 func (s *c16Side) close() {
